@@ -465,7 +465,14 @@ pub static COUNTING: std::sync::atomic::AtomicBool = std::sync::atomic::AtomicBo
 
 fn run_input(inp: &Input) -> Option<(String, String)> {
   let total_len: usize = inp.datagrams.iter().map(|d| d.len()).sum();
-  let t0 = Instant::now();
+  // CPU time of this thread, not wall-clock time: on a busy machine the process may simply not be running
+  let cpu = || -> f64 {
+    let mut ts = libc::timespec { tv_sec: 0, tv_nsec: 0 };
+    // SAFETY: plain syscall writing into a local
+    unsafe { libc::clock_gettime(libc::CLOCK_THREAD_CPUTIME_ID, &mut ts) };
+    ts.tv_sec as f64 + ts.tv_nsec as f64 * 1e-9
+  };
+  let t0 = cpu();
   let mut alloc = 0u64;
   let r = catch_unwind(AssertUnwindSafe(|| {
     let mut h = Hostile::new(inp.state);
@@ -480,7 +487,7 @@ fn run_input(inp: &Input) -> Option<(String, String)> {
     alloc = (PEAK.load(Ordering::Relaxed) - live0).max(0) as u64;
     h.probe()
   }));
-  let el = t0.elapsed();
+  let el = cpu() - t0;
   match r {
     Err(_) => {
       let p = take_last_panic().unwrap_or_default();
@@ -492,8 +499,8 @@ fn run_input(inp: &Input) -> Option<(String, String)> {
       let bound = 256 * 1024 + 64 * total_len as u64;
       if alloc > bound {
         Some((format!("C06:memory:{}", inp.family), format!("live heap grew by {alloc} bytes while processing {total_len} bytes of input (bound {bound})")))
-      } else if el.as_secs_f64() > 0.25 {
-        Some((format!("C06:time:{}", inp.family), format!("processing {total_len} bytes of input took {el:?}")))
+      } else if el > 0.25 {
+        Some((format!("C06:time:{}", inp.family), format!("processing {total_len} bytes of input took {el:.3} s of CPU time")))
       } else {
         None
       }
@@ -578,7 +585,16 @@ pub fn run(tier: &str) -> i32 {
           rep.violation(&k, replay, &format!("state {}, {}: {}", inp.state, inp.desc, v["msg"].as_str().unwrap_or("")));
         }
       }
-      CaseOutcome::Hang => rep.violation(&format!("C06:hang:{}", inp.family), replay, &format!("state {}, {}: no return within 3 s (process killed)", inp.state, inp.desc)),
+      CaseOutcome::Hang => {
+        // once more, alone and with a longer watchdog, to tell a hang from a process that was not scheduled
+        let again = run_sharded_budget(&["C06".into(), "--tier".into(), tier.into(), "--one".into(), idx.to_string()], 1, 1, 15.0, Some(2 << 30), 1);
+        match &again[0] {
+          CaseOutcome::Hang => rep.violation(&format!("C06:hang:{}", inp.family), replay, &format!("state {}, {}: no return within 3 s, and none within 15 s when run alone (process killed)", inp.state, inp.desc)),
+          CaseOutcome::Crash(s) if !s.contains("MACHINERY") => rep.violation(&format!("C06:abort:{}", inp.family), replay, &format!("state {}, {}: no return within 3 s; run alone the process died ({s})", inp.state, inp.desc)),
+          CaseOutcome::Done(v) if v.get("key").is_some() => rep.violation(v["key"].as_str().unwrap_or("C06:?"), replay, &format!("state {}, {}: {}", inp.state, inp.desc, v["msg"].as_str().unwrap_or(""))),
+          _ => rep.notes.push(format!("input {idx} did not return within 3 s in its shard but did when run alone (busy machine): not reported")),
+        }
+      }
       CaseOutcome::Crash(s) => {
         if s.contains("MACHINERY") {
           rep.machinery_errors.push(format!("input {idx}: {s}"));
@@ -601,7 +617,7 @@ pub fn run(tier: &str) -> i32 {
   rep.set("rule", json!("mixed-radix products of boundary alphabets of every submessage's fields (sequence numbers incl. i64::MIN/-1/0/window edges/2^32/i64::MAX, counts, bitmap numBits with exact/missing words, fragment numbers/sizes, sample sizes up to u32::MAX, octetsToInlineQos, all DATA flag bytes, inline-QoS parameter lengths, unknown submessage ids, wrong octetsToNextHeader) x protocol states (fresh, after DATA, half-assembled fragments, behind, after HEARTBEAT; writer with history, writer mid-repair) x source/reader-id variants; contradictory DATAFRAG pairs for one sample; bursts of up to 400 reader submessages in one datagram (the pipe to the writers holds 100); INFO_REPLY locator counts in both byte orders; two-step histories (a DATA or GAP-list bit far ahead, then a HEARTBEAT / GAP whose range reaches it); every truncation and 4 substitutions of every byte of 7 valid messages. Each input runs in a subprocess shard (2 GiB address space, 3 s watchdog, counting allocator); after each input well-behaved traffic must still be processed. distinct_nontrivial = distinct (family, state) classes"));
   rep.assumptions = vec![
     "Datagrams enter through MessageReceiver::handle_received_packet of the receive side and of the writer side; armed repair timers are fired afterwards".into(),
-    "Proportionality bounds: peak growth of live heap bytes <= 256 KiB + 64 x input bytes; time <= 0.25 s per input (debug-assertions and overflow checks on, as in the pinned suite)".into(),
+    "Proportionality bounds: peak growth of live heap bytes <= 256 KiB + 64 x input bytes; CPU time <= 0.25 s per input; an input that does not return within the 3 s watchdog is run once more alone with 15 s before it is reported as a hang (debug-assertions and overflow checks on, as in the pinned suite)".into(),
     "The liveness probe uses a second well-behaved writer / reader".into(),
   ];
   rep.finish()
